@@ -314,6 +314,10 @@ def rulePODPOD (t1 t2 : Time) : R := pure <| some <| .interval (some t1) (some t
 def tsToTime (t : Ts) (pod : Option String) : Time :=
   { year := some t.date.y, month := some t.date.m, day := some t.date.d, hour := some t.h, minute := some t.mi, pod := pod }
 
+/-- the "9-5" condition of `ruleDateInterval`: both hours ≤ 12, start hour ≥ end hour, and (repaired) the end shifted by
+    12 hours lies after the start (`da`, `db` in minutes) -/
+def shift12 (ha hb da db : Int) : Bool := ha ≤ 12 && hb ≤ 12 && ha ≥ hb && db + 12 * 60 > da
+
 def ruleDateInterval (d : Time) (f t : Option Time) : R := do
   let okEnd (x : Option Time) : Bool := match x with | none => true | some x => x.isTOD || x.isPOD
   if !(okEnd f && okEnd t) then return none
@@ -327,7 +331,7 @@ def ruleDateInterval (d : Time) (f t : Option Time) : R := do
     if da.minutes ≥ db.minutes then
       match a.hour, b.hour with
       | some ha, some hb =>
-        if ha ≤ 12 && hb ≤ 12 && ha ≥ hb && db.minutes + 12 * 60 > da.minutes then
+        if shift12 ha hb da.minutes db.minutes then
           let e := db.addMinutes (12 * 60)
           let _ ← dateOk e.date
           return some <| .interval (some a) (some (tsToTime e b.pod))
